@@ -1189,6 +1189,8 @@ class Interp:
         a0 = deref_all(args[0])
         if not (isinstance(a0, Obj) and a0.kind == 'cseq') and not (isinstance(a0, Enum) and a0.adt in ('std::ops::Range', 'std::ops::RangeInclusive')):
             return NotImplemented
+        if isinstance(a0, Enum) and getattr(self.model, 'summarises_range_loops', False) and last in ('for_each', 'fold', 'try_for_each', 'rev'):
+            return NotImplemented         # the model has a one-step summary for loops over index ranges, literal bounds or not
         seq = self._as_cseq(args[0])
         if seq is None:
             return NotImplemented
